@@ -161,6 +161,10 @@ class Unit:
         parts = arg.split()
         name = parts[0]
         fmt = parts[1] if len(parts) > 1 else "{}"
+        each = None
+        for x in parts[2:]:
+            if x.startswith("each="):
+                each = x[5:]
         it = ix.find(name, kind="static")
         s, e = it["expr"]
         init = ix.text(it["file"], s, e)
@@ -169,8 +173,11 @@ class Unit:
             raise Undecided(f"R3b: cannot read initializer of static {name}")
         from kv import split_top_commas
         elems = [x for x in split_top_commas(re.sub(r"//[^\n]*", "", m.group(1))) if x]
+        raw_elems = elems
+        if each:
+            elems = [each.replace("%", e) for e in elems]
         self.weaver.records.append({"path": name, "kind": "static", "file": os.path.relpath(it["file"], REPO), "span": it["span"],
-                                    "sha256": sha(init), "rules_fired": {"R3b": 1}, "diff_lines": 0, "diff": [], "elements": elems})
+                                    "sha256": sha(init), "rules_fired": {"R3b": 1}, "diff_lines": 0, "diff": [], "elements": raw_elems})
         return fmt.replace("{}", ", ".join(elems)).replace("{n}", str(len(elems)))
 
     def fn_of_line(self, n):
